@@ -184,9 +184,7 @@ theorem fresh_mkCell (σ : Store) (a : Args) (ls : List Nat) : Fresh σ (mkCell 
       .cell := by
     refine Fresh.then_eq ?_ (kidsEq_setAsParent _ _ _)
     exact fresh_alloc σ _ _ (by simp [docInit_cls])
-  split
-  · exact h1
-  · exact h1.then_eq (kidsEq_upd _ _ _ (addTypeIf_fields _))
+  exact h1.then_eq (kidsEq_upd _ _ _ (addTypeIf_fields _))
 
 theorem fresh_regionInit (σ : Store) (cls : Cls) (a : Args) (dt : List String) (nd0 : Node) :
     Fresh σ (regionInit σ cls a dt nd0) cls := by
